@@ -196,6 +196,39 @@ def one_case(rec, seedt, nmax):
                       f"L={int(res_l.L[j])}, K={int(res_l.K[j])})")
 
 
+def cancelling_case(rec, seedt):
+    """Exactly incoherent by construction: channel 1 repeats with the segment shift, channel 2 with
+    alternating sign, even K - the averaged cross-product is exactly 0 although every segment's is
+    not.  Coherence must be exactly 0 (not NaN, not negative), the residual spectra must add up."""
+    from speckit.analysis import SpectrumAnalyzer
+    rng = gen.rng_for(*seedt)
+    L = int(rng.choice([16, 50, 128, 301]))
+    K = 2 * int(rng.integers(1, 7))
+    p, q = rng.standard_normal(L), rng.standard_normal(L)
+    x = np.tile(p, K)
+    y = np.tile(np.concatenate([q, -q]), K // 2)
+    kw = dict(order=int(rng.choice([-1, 0, 1, 2])), backend=str(rng.choice(["numba", "numpy"])),
+              olap=0.0, win=str(rng.choice(["hann", "kaiser"])), psll=120.0)
+    desc = {"kind": "cancelling", "seed": list(seedt), "L": L, "K": K, "order": kw["order"],
+            "backend": kw["backend"]}
+    rec.case(desc, nontrivial=True)
+    fq = float(rng.uniform(0.05, 0.45))
+    res = api.attempt(rec, lambda: SpectrumAnalyzer(np.vstack([x, y]), 1.0, **kw)
+                      .compute_single_bin(fq, L=L))
+    if res is None or int(res.K[0]) != K:
+        return
+    rec.count("c09_exactly_cancelling_pairs")
+    tag = f"[cancelling segments, {kw['backend']}, order {kw['order']}] "
+    resultcheck.c09_identities(res, rec, tag)
+    if not (float(res.coh[0]) == 0.0) and float(res.XX[0]) > 0 and float(res.YY[0]) > 0 \
+            and abs(complex(res.XY[0])) == 0.0:
+        rec.violation("coherence-of-zero-cross-product", f"{tag}XY is exactly 0 but coh={res.coh[0]!r}")
+    rs = api.attempt(rec, lambda: SpectrumAnalyzer(np.vstack([y, x]), 1.0, **kw)
+                     .compute_single_bin(fq, L=L))
+    if rs is not None:
+        resultcheck.c09_swap(res, rs, rec)
+
+
 def many_segments_case(rec, seedt):
     """One bin averaged over more segments than any internal chunk size (8192/16384/32768 in the
     NumPy fallbacks): the identities must hold there too, and the pair must agree with the
@@ -241,6 +274,8 @@ def run_shard(params, rec):
     t0 = time.time()
     for i in range(max(2, params["n"] // 12)):
         many_segments_case(rec, [params["seed"], params["shard"], "many", i])
+    for i in range(max(4, params["n"] // 6)):
+        cancelling_case(rec, [params["seed"], params["shard"], "cancel", i])
     for i in range(params["n"]):
         if time.time() - t0 > params["budget_s"]:
             rec.note(f"time budget reached after {i}")
@@ -249,6 +284,8 @@ def run_shard(params, rec):
 
 
 def replay(case, rec):
+    if case.get("kind") == "cancelling":
+        return cancelling_case(rec, case["seed"])
     if case.get("kind") == "many-segments":
         return many_segments_case(rec, case["seed"])
     one_case(rec, case["seed"], case.get("nmax", 8000))
